@@ -289,6 +289,17 @@ def main(argv=None):
 def replay_file(scn, prop, path):
     with open(path) as f:
         doc = json.load(f)
+    if "config" not in doc:
+        # a post-batch probe violation (compiled probes, hash-seed re-execution): re-run the probe command
+        print("REPLAY property=%s file=%s is a post-batch probe finding (class %s); re-run: %s" % (prop, path, doc.get("class"), doc.get("rerun") or "./check %s --tier thorough" % prop))
+        if doc.get("rerun"):
+            p = subprocess.run(doc["rerun"], shell=True, capture_output=True, text=True, cwd=VERIF_DIR)
+            print(p.stdout[-1500:])
+            bad = '"mismatches": []' not in p.stdout
+            if bad:
+                print("VIOLATION property=%s replay=%s" % (prop, path))
+                return EXIT_VIOLATION
+        return EXIT_OK
     res = core.run_for(scn)(scn, doc["config"], tape_values=doc["tape"], keep_events=20)
     v = res["violation"]
     want = doc["violation"]
